@@ -468,6 +468,8 @@ class ParserText(ParserBase):
             date_time = dateutil.parser.parse(six.ensure_text(value, self._encoding))
             if date_time.tzinfo is not None:
                 date_time.astimezone(dateutil.tz.UTC)  # out of range offset or instant
+            if date_time.microsecond:
+                raise ValueError(date_time.microsecond)  # the composed form has whole seconds only
         except (ValueError, OverflowError) as e:
             six.raise_from(InvalidValue(value, type(self), 'value'), e)
 
